@@ -56,6 +56,28 @@ static LineCase gen_line(Chooser &ch, int min_coords)
   m.kernel = ctr;
   const int nc = static_cast<int>(ch.range(min_coords, 5));
   m.coords = g::trench(ch, lc.fr, ctr, nc, 25);
+  // the shared trench generator clamps latitudes at +-80 degrees, which (on a small planet, where 700 km are 23 degrees) folds the last
+  // steps of a long trench into a sharp corner; the checks below rely on bends of at most 25 degrees (plus lattice rounding), so
+  // such a trench is replaced by one that keeps its first heading
+  {
+    double worst = 0, shortest = 1e300;
+    for (size_t i = 0; i + 1 < m.coords.size(); ++i)
+      {
+        const double ax = m.coords[i + 1][0] - m.coords[i][0], ay = m.coords[i + 1][1] - m.coords[i][1];
+        shortest = std::min(shortest, std::sqrt(ax * ax + ay * ay));
+        if (i + 2 < m.coords.size())
+          {
+            const double bx = m.coords[i + 2][0] - m.coords[i + 1][0], by = m.coords[i + 2][1] - m.coords[i + 1][1];
+            worst = std::max(worst, std::fabs(std::atan2(ax * by - ay * bx, ax * bx + ay * by)) / DEG);
+          }
+      }
+    if (worst > 32 || shortest < 100 * lc.fr.km())
+      {
+        const double ax = m.coords[1][0] - m.coords[0][0], ay = m.coords[1][1] - m.coords[0][1], an = std::sqrt(ax * ax + ay * ay);
+        const double len = std::min(an, (lc.fr.sph ? 100.0 : 1e300) / nc); // stays within 100 degrees overall
+        for (size_t i = 1; i < m.coords.size(); ++i) m.coords[i] = {{m.coords[0][0] + ax / an * len * static_cast<double>(i), m.coords[0][1] + ay / an * len * static_cast<double>(i)}};
+      }
+  }
   if (lc.fr.sph)
     {
       // ... the whole trench, not only its first coordinate (on a small planet 700 km are 23 degrees): shift it towards the equator
@@ -239,10 +261,26 @@ static J gen_sections(Chooser &ch)
   return c;
 }
 
+// largest bend of the trench polyline at an interior coordinate, in degrees (longitude-latitude plane)
+static double max_trench_bend(const J &coords)
+{
+  double worst = 0;
+  for (size_t i = 0; i + 2 < coords.size(); ++i)
+    {
+      const double ax = coords[i + 1][0].num() - coords[i][0].num(), ay = coords[i + 1][1].num() - coords[i][1].num();
+      const double bx = coords[i + 2][0].num() - coords[i + 1][0].num(), by = coords[i + 2][1].num() - coords[i + 1][1].num();
+      worst = std::max(worst, std::fabs(std::atan2(ax * by - ay * bx, ax * bx + ay * by)) / DEG);
+    }
+  return worst;
+}
+
 static Result check_sections(const J &c)
 {
   Result r;
   const J root = J::parse(c.at("world").str());
+  // "beside trench segment k" names the segment holding the foot only for gently bending trenches (stated assumption: 25 degrees plus
+  // lattice rounding); a sharper corner - which the generator no longer produces - is outside what this sub-check can decide
+  if (max_trench_bend(root.at("features")[0].at("coordinates")) > 32) { r.discard = true; r.msg = "trench bends by more than 32 degrees"; return r; }
   auto A = make_world(c.at("world").str(), 1, "a");
   const size_t changed = static_cast<size_t>(c.at("changed").num());
   J root2 = root;
